@@ -118,6 +118,16 @@ CLAIMS = {
              "m,s >= 1; subdivision (masks, repeated, FFD refine crop) leaves the function unchanged. Two clauses the "
              "current code violates are refuted and listed as known findings.",
         ref="5 C14"),
+    "C15": dict(
+        technique="Lean 4 soundness/completeness theorem for a storage-write monitor over aten op traces (TorchDispatchMode) + "
+                  "slot/container model of shallow-copy accessors; verdicts cross-checked against bitwise before/after snapshots",
+        text="17 theorems: a trace accepted by the monitor cannot change any argument storage for ANY written contents "
+             "(induction over traces of any length), rejection is never spurious, accepted iff no execution changes an argument; "
+             "with-argument accessors of Grid/Cube/Image(Batch) are pure, deepcopy is independent in both directions; for "
+             "transforms the model predicts exactly which receiver slots an accessor changes (refuted clauses = known findings). "
+             "Every public name of core.functional (113) and losses.functional (40) is traced on enumerated call paths "
+             "(1413 paths); the proof is per enumerated path, not about all paths of the Python source (partial).",
+        ref="5 C15"),
     "C16": dict(
         technique="Lean 4 theorems on list models of the losses (reductions, masks, NCC/LCC, Dice/Tversky, MI symmetry) + "
                   "correspondence of functional and module forms",
